@@ -10,7 +10,7 @@ THEOREMS = ['XmlDiffModel.C08_split_plain', 'XmlDiffModel.C09_xpath_live_view', 
 PARTIAL = {"C08": 'proved for the whole formatter without text tags and without use_replace (C08_output_placeholder_free): from a left document without private-use characters, for every script the handlers accept and engine answers of equal / insert / delete segments, the maker is untouched, every text and tail of the working tree stays plain or an emitted wrapper string (invariant FInv over all twelve handlers), finalize succeeds for every sufficiently large fuel and the tree handed to render has no placeholder character; with text tags only for the empty script (C11_prepare_then_finalize). Also: split_string leaves texts without private-use characters alone, the addressing lemma, the one-to-one placeholder table (C11). Totality: for every script the patcher accepts (stepwise-unique paths, no move into the own subtree, no comment actions) every handler succeeds (part of C09_accept_simulation). For the scripts of the model differ with the engine model inside the formatter model no hypothesis about the run or the answers is left (C08_differ_script_engine: clean left document, right document of elements with fit texts, texts of at most 27000 characters, any diff_bisect behaviour, WS_TEXT normalisation only on texts that are already whitespace-normal): every handler succeeds, the maker is untouched, finalize succeeds for every sufficiently large fuel and the tree handed to render has no placeholder character. NOT proved: the same with text tags or use_replace and a non-empty script, well-formedness of the serialisation. Totality, re-parsing, absence of private-use characters and the namespace discipline are decided on every run on the real output; the model of the whole formatter is compared with the code by U9.'}
 LEAN_MODULES = ["XmlDiffModel.Props.C09", "XmlDiffModel.Props.C09E", "XmlDiffModel.Props.C11"]
 SOURCES = ['formatting.XMLFormatter', 'formatting.PlaceholderMaker', 'main.diff_trees']
-RULE = 'XML-formatter stream: (i) an exhaustive text-pair stream - one text or tail update a -> b for every pair of non-empty strings over {a, b} up to length 4 (quick) / 6 (thorough), with and without use_replace; 30 % of the random pairs below also get text shapes ordinary word edits do not produce (old text starts with what the new one ends with, code points above the private-use area, short two-letter strings); (ii) random document pairs (differ-cluster generator, mixed-content trees, and HTML-like documents with <p> text tags, inline formatting and paragraph edits) x formatter configurations (normalize in the four flag values, pretty_print, use_replace, text_tags / formatting_tags) x diff options. Oracle: diff_trees with XMLFormatter completes, the result parses, contains no U+E000-U+F8FF character in text, tails or attribute values, and uses the diff namespace only for the documented elements and attributes. U9: tree handed to render() vs. XmlFormat.formatTree. Non-trivial = output contains diff markup; distinct by (L, R, formatter configuration).'
+RULE = 'One XMLFormatter instance across namespaced pairs that bind one prefix to different URIs (completes, well-formed). XML-formatter stream: (i) an exhaustive text-pair stream - one text or tail update a -> b for every pair of non-empty strings over {a, b} up to length 4 (quick) / 6 (thorough), with and without use_replace; 30 % of the random pairs below also get text shapes ordinary word edits do not produce (old text starts with what the new one ends with, code points above the private-use area, short two-letter strings); (ii) random document pairs (differ-cluster generator, mixed-content trees, and HTML-like documents with <p> text tags, inline formatting and paragraph edits) x formatter configurations (normalize in the four flag values, pretty_print, use_replace, text_tags / formatting_tags) x diff options. Oracle: diff_trees with XMLFormatter completes, the result parses, contains no U+E000-U+F8FF character in text, tails or attribute values, and uses the diff namespace only for the documented elements and attributes. U9: tree handed to render() vs. XmlFormat.formatTree. Non-trivial = output contains diff markup; distinct by (L, R, formatter configuration).'
 ASSUMPTIONS = [
     "U9: the character-level text diff of every text update (diff_main + diff_cleanupSemantic) is an input of the formatter model, recorded from the real engine; U9e: it is computed by the engine model inside the formatter model, only the split points of diff_bisect are recorded (the theorems hold for every bisect behaviour); the engine itself is the subject of C16",
     "documents without private-use characters; namespace-free documents in the model",
@@ -21,7 +21,10 @@ def extra_units(tier, seed, intensify):
     n = 1500 if tier == "quick" else 30000
     if intensify:
         n *= 3
-    return core.merge_all(core.pmap_chunks(_xml.u9_cases, seed, n, (tier, "xml")))
+    st = core.merge_all(core.pmap_chunks(_xml.u9_cases, seed, n, (tier, "xml")))
+    # one formatter instance across namespaced pairs that re-bind one prefix
+    st.merge(core.merge_all(core.pmap_chunks(_xml.ns_reuse_cases, seed, 200 if tier == "quick" else 4000, (tier, "nsreuse"))))
+    return st
 
 
 _xml.make(sys.modules[__name__], PID)
